@@ -201,7 +201,7 @@ def gen_program(rng, n=None, kinds=None):
     return [Stmt(rng.choice(kinds), 10 + i) for i in range(n)]
 
 
-def render_layout(rng, stmts, want_prob=0.6, allow_prose=True, google=None):
+def render_layout(rng, stmts, want_prob=0.6, allow_prose=True, google=None, vary_indent=True):
     """a well formed docstring holding the program: prompt style, indentation, wants (correct by
     construction), blank lines and prose between statements.  Returns (text, wants: {stmt index: text})"""
     style = rng.choice(['ps1', 'ps2', 'ps2'])
@@ -224,6 +224,10 @@ def render_layout(rng, stmts, want_prob=0.6, allow_prose=True, google=None):
         elif j and rng.random() < 0.2 and prev == 'want':
             lines.append('')
             prev = 'text'
+        if vary_indent and j and prev in ('want', 'text') and rng.random() < 0.25:
+            # a new example after a want, a blank line or prose may sit at any other indentation
+            # (deeper or shallower); inside a google block it stays inside the block
+            indent = rng.choice([4, 6, 8] if google else [0, 2, 4, 8])
         lines += s.render(style, indent)
         prev = 'src'
         cw = correct_wants(stmts, lo, j)
